@@ -361,7 +361,13 @@ func (c *Ctx) Callees(site ssa.CallInstruction) []*ssa.Function {
 	if f := site.Common().StaticCallee(); f != nil {
 		return []*ssa.Function{f}
 	}
-	n := c.CHA().Nodes[site.Parent()]
+	g := c.CHA()
+	if !site.Common().IsInvoke() {
+		// call of a function value: CHA resolves it to every address-taken function of
+		// that signature in the program; VTA follows the value through fields and maps
+		g = c.VTA()
+	}
+	n := g.Nodes[site.Parent()]
 	if n == nil {
 		return nil
 	}
